@@ -929,3 +929,65 @@ Proof.
   - unfold in_str in H. assert (existsb (N.eqb ch_colon) b = true) as X; [|congruence].
     apply existsb_exists. exists ch_colon. split; [assumption|apply N.eqb_refl].
 Qed.
+
+(* ======================================================================================= *)
+(* statements used as they are by Props/C13.v and Props/C17.v                                *)
+
+Lemma inv_resolves : forall class_attrs s n it,
+  Inv s -> nth_error (items s) n = Some it ->
+  lookup_ix s (KStr (sess it)) = IOk n /\ getitem s (KStr (sess it)) = IOk it /\
+  (existsb (str_eqb (sess it)) class_attrs = false -> str_eqb (sess it) s_mnemonic_transforms = false ->
+   py_getattr class_attrs s (sess it) = IOk (AttrItem it)).
+Proof.
+  intros ca s n it [_ [H2 _]] E. destruct (H2 n it E) as [L G]. split; [assumption|split; [assumption|]].
+  intros X1 X2. rewrite py_getattr_present; auto.
+  - rewrite G. reflexivity.
+  - apply contains_iff. eauto.
+Qed.
+
+Lemma inv_blank_unknown : forall s it,
+  Inv s -> In it (items s) -> is_blank (orig it) = true ->
+  sess it = s_UNKNOWN \/ exists k, sess it = s_UNKNOWN ++ suffix k.
+Proof. intros s it [_ [_ H3]] Hit B. apply wf_blank; auto. Qed.
+
+Lemma numbering_insert : forall s i a n it',
+  nth_error (items (insert s i (make a))) n = Some it' ->
+  exists it, nth_error (py_insert i (make a) (items s)) n = Some it /\ payload it' = payload it /\
+             sess it' = numbered (transforms s) (useful (make a)) (py_insert i (make a) (items s)) n it.
+Proof. intros s i a n it' H. unfold insert in H. apply numbering_after. exact H. Qed.
+
+Lemma numbering_append : forall s a n it',
+  nth_error (items (append s (make a))) n = Some it' ->
+  exists it, nth_error (items s ++ [make a]) n = Some it /\ payload it' = payload it /\
+             sess it' = numbered (transforms s) (useful (make a)) (items s ++ [make a]) n it.
+Proof. intros s a n it' H. unfold append in H. apply numbering_after. exact H. Qed.
+
+Lemma numbering_order : forall tr t l i j a b,
+  (i < j)%nat -> nth_error l i = Some a -> nth_error l j = Some b ->
+  in_group tr t a = true -> in_group tr t b = true ->
+  (rank tr t l i < rank tr t l j < group_count tr t l)%nat.
+Proof.
+  intros tr t l i j a b Hij Ha Hb Ga Gb. split.
+  - eapply rank_lt; eauto.
+  - eapply rank_member_lt_count; eauto.
+Qed.
+
+Lemma read_names : forall tr l,
+  keys (read_section tr l) = spec_keys tr (List.map a_mnem l) /\ origs (read_section tr l) = List.map a_mnem l.
+Proof. intros. split; [apply read_keys|apply read_origs]. Qed.
+
+Lemma lasfile_copy_id : forall las,
+  forallb (fun p => forallb item_ok (items (snd p))) las = true ->
+  copy_las pickle_section las = las /\ copy_las deepcopy_section las = las.
+Proof.
+  intros las H. split; apply copy_las_id; auto.
+  - exact pickle_section_id.
+  - exact deepcopy_section_id.
+Qed.
+
+Lemma lasfile_write_same : forall (W : Type) (write : lasfile -> W) las,
+  forallb (fun p => forallb item_ok (items (snd p))) las = true ->
+  write (copy_las pickle_section las) = write las /\ write (copy_las deepcopy_section las) = write las.
+Proof.
+  intros W write las H. destruct (lasfile_copy_id las H) as [A B]. rewrite A, B. auto.
+Qed.
